@@ -56,6 +56,7 @@ static bool unhex(const std::string &h, std::string &out)
 
 class NullProducer: public BodyProducer
 {
+    CBDATA_CHILD(NullProducer);
 public:
     NullProducer(): AsyncJob("C07Producer") {}
     void noteMoreBodySpaceAvailable(BodyPipe::Pointer) override {}
@@ -65,6 +66,7 @@ public:
 
 class NullConsumer: public BodyConsumer
 {
+    CBDATA_CHILD(NullConsumer);
 public:
     NullConsumer(): AsyncJob("C07Consumer") {}
     void noteMoreBodyDataAvailable(BodyPipe::Pointer) override {}
@@ -73,9 +75,12 @@ public:
     bool doneAll() const override { return false; }
 };
 
+CBDATA_CLASS_INIT(NullProducer);
+CBDATA_CLASS_INIT(NullConsumer);
+
 static std::string nibbled(int hasBody, size_t put, size_t take)
 {
-    const auto mx = MasterXaction::MakePortless<XactionInitiator::initClient>();
+    const auto mx = MasterXaction::MakePortless<XactionInitiator::initHtcp>();
     HttpRequest::Pointer req = new HttpRequest(mx);
     static NullProducer *producer = new NullProducer;
     static NullConsumer *consumer = new NullConsumer;
